@@ -55,6 +55,7 @@ OF OR IN CONNECTION WITH THE SOFTWARE OR THE USE OR OTHER DEALINGS IN THE SOFTWA
 #include <minisat/mtl/Alg.h>
 #include <tsolvers/THandler.h>
 
+#include <atomic>
 #include <cstdio>
 #include <iosfwd>
 #include <memory>
@@ -83,7 +84,7 @@ protected:
     bool      verbosity;
     enum class ConsistencyAction { BacktrackToZero, ReturnUndef, SkipToSearchBegin, NoOp };
     int search_counter;
-    bool stopFlag{false};
+    std::atomic<bool> stopFlag{false}; // written by the requesting thread while the solving thread polls it
 public:
 
     // Constructor/Destructor:
